@@ -186,6 +186,23 @@ class EngineSource:
         fv.closure.locals[name] = fv  # the function can refer to itself through the enclosing scope
         return fv
 
+    def bound_constraints(self, bound):
+        """|x| <= bound for every declared integer input / length (used to look for a SMALL counterexample)."""
+        cs = []
+        for name, (kind, v) in self.decl.items():
+            if kind == "int":
+                cs.append(z3.And(v >= -bound, v <= bound))
+            elif kind == "intlist":
+                arr, ln = v
+                cs.append(ln <= min(bound, 6))
+                j = z3.Int("bnd!j")
+                cs.append(z3.ForAll([j], z3.And(z3.Select(arr, j) >= -bound, z3.Select(arr, j) <= bound)))
+            elif kind == "fixedlist":
+                cs += [z3.And(x >= -bound, x <= bound) for x in v]
+            elif kind == "symstr":
+                cs.append(v[1] <= bound)
+        return cs
+
     # ---- model -> primitives
     def prims_from_model(self, model):
         out = {}
